@@ -156,8 +156,7 @@ func newServer(sc *Script) (*server, error) {
 	s := &server{sc: sc, ln: ln, host: ln.Addr().String(), conns: map[net.Conn]struct{}{}}
 	s.scheme = "rtsp"
 	if sc.Cfg.Secure {
-		s.ln = tls.NewListener(ln, serverTLS())
-		s.scheme = "rtsps"
+		s.scheme = "rtsps" // connections are wrapped one by one in acceptLoop (a scripted one may stall before / in the handshake)
 	}
 	s.wg.Add(1)
 	go s.acceptLoop()
@@ -179,6 +178,16 @@ func (s *server) acceptLoop() {
 		}
 		s.nconn++
 		idx := s.nconn
+		if s.sc.SmallBuf {
+			if tc, ok := c.(*net.TCPConn); ok {
+				tc.SetReadBuffer(2048) //nolint:errcheck
+			}
+		}
+		raw := c
+		stalled := s.sc.StallConn == idx
+		if s.sc.Cfg.Secure && !stalled {
+			c = tls.Server(c, serverTLS())
+		}
 		s.conns[c] = struct{}{}
 		s.wroteResp.Store(0)
 		s.wroteReq.Store(0)
@@ -187,6 +196,10 @@ func (s *server) acceptLoop() {
 		}
 		s.wg.Add(1)
 		s.mu.Unlock()
+		if stalled {
+			go s.stall(raw)
+			continue
+		}
 		for _, a := range s.sc.Accept {
 			if a.N == idx {
 				s.busy.Add(1)
@@ -199,6 +212,52 @@ func (s *server) acceptLoop() {
 		}
 		go s.handle(c, idx)
 	}
+}
+
+// stall: this connection gets as far as the script says and then nothing more happens on it
+func (s *server) stall(raw net.Conn) {
+	defer s.wg.Done()
+	defer raw.Close()
+	var c net.Conn = raw
+	park := func() {
+		buf := make([]byte, 512)
+		for {
+			if _, err := c.Read(buf); err != nil {
+				return
+			}
+		}
+	}
+	switch s.sc.StallStage {
+	case "tlsmid":
+		buf := make([]byte, 2048)
+		raw.SetReadDeadline(time.Now().Add(2 * time.Second))
+		raw.Read(buf) //nolint:errcheck
+		raw.SetReadDeadline(time.Time{})
+		raw.Write([]byte{0x16, 0x03, 0x03, 0x00, 0x7a, 0x02, 0x00, 0x00}) //nolint:errcheck
+	case "nohttp", "partial":
+		if s.sc.Cfg.Secure {
+			tc := tls.Server(raw, serverTLS())
+			raw.SetDeadline(time.Now().Add(2 * time.Second))
+			if tc.Handshake() != nil {
+				return
+			}
+			raw.SetDeadline(time.Time{})
+			c = tc
+		}
+		br := bufio.NewReader(c)
+		c.SetReadDeadline(time.Now().Add(2 * time.Second))
+		for {
+			l, err := br.ReadString('\n')
+			if err != nil || strings.TrimRight(l, "\r\n") == "" {
+				break
+			}
+		}
+		c.SetReadDeadline(time.Time{})
+		if s.sc.StallStage == "partial" {
+			c.Write([]byte("HTTP/1.1 200 OK\r\nConte")) //nolint:errcheck
+		}
+	}
+	park()
 }
 
 func (s *server) close() {
